@@ -551,7 +551,15 @@ func RunPex(sw *Swarm, rng *rand.Rand) (tr *Tor, stats map[string]int) {
 		opt := RemoteOpts{Fast: rng.IntN(2) == 0, Ext: rng.IntN(4) != 0, Addr: Addr(100 + i), ID: []byte(fmt.Sprintf("-VF0002-pool%08d", i))}
 		r := tr.Connect(opt)
 		if opt.Ext {
-			r.SendExt0(StdExt0(0, 0))
+			e := StdExt0(0, 0)
+			if rng.IntN(4) == 0 {
+				// it claims to listen on another port than the one it was dialled at (outgoing connection): the
+				// peer keeps one address for its whole stay, whichever storrent settles on
+				pp := int64(opt.Addr.Port())%60000 + 1000 + int64(rng.IntN(3))
+				e.P = &pp
+				stats["inconsistent-port"]++
+			}
+			r.SendExt0(e)
 		}
 		conn[i] = r
 		stats["join"]++
@@ -603,6 +611,25 @@ func RunPex(sw *Swarm, rng *rand.Rand) (tr *Tor, stats map[string]int) {
 			time.Sleep(d)
 		}
 		sw.Cut()
+		// whatever is announced is an address some peer of this torrent is (or was) connected at
+		for _, o := range obs {
+			if o.Closed() || o.Stalled() {
+				continue
+			}
+			for a := range o.PexAnnounced() {
+				known := false
+				for k := 0; k < pool && !known; k++ {
+					known = Addr(100+k) == a
+				}
+				for _, o2 := range obs {
+					known = known || o2.Addr == a
+				}
+				if !known {
+					sw.Viol("C11", "conformance", "pex-announces-address-nobody-connected-from", fmt.Sprintf("%s: %v is announced and no peer was ever connected at that address", o.Name, a))
+					return
+				}
+			}
+		}
 		if sw.C.Violated() {
 			return
 		}
@@ -612,6 +639,10 @@ func RunPex(sw *Swarm, rng *rand.Rand) (tr *Tor, stats map[string]int) {
 	sw.Act("final: %d PEX rounds", rounds)
 	time.Sleep(time.Duration(rounds)*61*time.Second + 5*time.Second)
 	sw.Cut()
+	everPool := map[netip.AddrPort]bool{}
+	for i := range conn {
+		everPool[Addr(100+i)] = true
+	}
 	live := map[netip.AddrPort]bool{}
 	for i, r := range conn {
 		if r != nil && !r.Closed() {
@@ -631,6 +662,10 @@ func RunPex(sw *Swarm, rng *rand.Rand) (tr *Tor, stats map[string]int) {
 				}
 			}
 			if !live[a] && !isObs {
+				if _, ever := everPool[a]; !ever {
+					sw.Viol("C11", "conformance", "pex-announces-address-nobody-connected-from", fmt.Sprintf("%s: %v is announced and no peer was ever connected at that address", o.Name, a))
+					break
+				}
 				cls := "pex-departure-never-reported"
 				if stats["rejoin"] > 0 {
 					cls += " after-rejoin"
